@@ -1425,7 +1425,7 @@ def slip_tie_modules():
 ENDP_SRC = "src/endpoints/core.c"
 ENDP_TIE = {
     "sink_adapt": "Ufw.Tie.EndpFns.SinkAdapt", "source_adapt": "Ufw.Tie.EndpFns.SourceAdapt",
-    "sink_put_chunk": "Ufw.Tie.EndpFns.SinkPutChunk",
+    "sink_put_chunk": "Ufw.Tie.EndpFns.SinkPutChunk", "source_get_chunk": "Ufw.Tie.EndpFns.SourceGetChunk",
 }
 ENDP_WANT = ["source_get_octet", "sink_put_octet", "source_adapt", "sink_adapt", "once_source_get_chunk", "once_sink_put_chunk",
              "source_get_chunk", "sink_put_chunk", "source_get_chunk_atmost", "sink_put_chunk_atmost"]
